@@ -83,6 +83,7 @@ type State struct {
 	definable map[int]bool
 	reads   []streamRead
 	ghostCells map[int]Value
+	havocPending map[string]bool
 	closerFresh map[int]bool // fresh channels stored (only) in a field with a closer declaration
 	closerSpawned bool
 	guardVals map[string]Value // value of guarded fields right after the last acquisition of their guard
@@ -158,6 +159,7 @@ func (st *State) clone() *State {
 	n.trail = append([]string{}, st.trail...)
 	n.reads = st.reads
 	n.ghostCells = st.ghostCells
+	n.havocPending = st.havocPending
 	n.closerFresh = st.closerFresh
 	n.closerSpawned = st.closerSpawned
 	n.guardVals = st.guardVals
@@ -335,6 +337,12 @@ func (m *Machine) heapGet(st *State, name string, s *Sort) *Term {
 		if t.sort != s {
 			panic(fmt.Sprintf("heap sort mismatch for %s: %s vs %s", name, t.sort, s))
 		}
+		return t
+	}
+	if st.havocPending[name] {
+		t := m.ctx.Fresh("Hv."+name, s)
+		m.baseInfo[t.id] = &baseArrInfo{nfresh: m.ctx.nfresh, escaped: map[int]bool{}}
+		st.heap[name] = t
 		return t
 	}
 	if name == "chan.closedByMe" {
@@ -824,7 +832,22 @@ func (m *Machine) assumeRef(st *State, r *Term) {
 func (m *Machine) havocName(st *State, name string, keepLocal bool, except map[string]bool) {
 	old, ok := st.heap[name]
 	if !ok {
-		return // never touched on this path: still the unconstrained initial array... but must be a new one
+		srt, known := m.memSortOf[name]
+		if !known {
+			// never read or written anywhere so far: remember that later reads must not see the initial heap
+			if st.havocPending == nil {
+				st.havocPending = map[string]bool{}
+			} else {
+				np := map[string]bool{}
+				for k := range st.havocPending {
+					np[k] = true
+				}
+				st.havocPending = np
+			}
+			st.havocPending[name] = true
+			return
+		}
+		old = m.heapGet(st, name, srt)
 	}
 	nw := m.ctx.Fresh("Hv."+name, old.sort)
 	esc := map[int]bool{}
